@@ -889,12 +889,12 @@ fn gen_plan(rng: &mut Rng) -> Plan {
     }
     let mut present: Vec<i64> = vec![];
     let mut ms_present: Vec<i64> = vec![];
-    let n = rng.range(3, 9);
+    let n = rng.range(4, 22);
     for _ in 0..n {
         let r = *rng.pick(&remotes);
         let x = rng.below(100);
-        if x < 70 {
-            let val = rng.below(40) as i64 - 5;
+        if x < 62 {
+            let val = if rng.chance(1, 10) { rng.below(100000) as i64 - 50000 } else { rng.below(40) as i64 - 5 };
             let key = rng.range(1, 3) as i64;
             let y = rng.below(100);
             let (lane, body) = if y < 22 {
@@ -903,8 +903,12 @@ fn gen_plan(rng: &mut Rng) -> Plan {
                 present.retain(|k| *k != key);
                 present.push(key);
                 ("m", hex(format!("@update(key:{}) {}", key, val).as_bytes()))
+            } else if y < 50 && present.is_empty() && rng.chance(11, 12) {
+                // (removing an absent key silences the lane for good — F18 — so it is kept rare)
+                present.push(key);
+                ("m", hex(format!("@update(key:{}) {}", key, val).as_bytes()))
             } else if y < 50 {
-                let k = if !present.is_empty() && rng.chance(9, 10) { *rng.pick(&present) } else { key };
+                let k = if !present.is_empty() && rng.chance(11, 12) { *rng.pick(&present) } else { key };
                 present.retain(|q| *q != k);
                 ("m", hex(format!("@remove(key:{})", k).as_bytes()))
             } else if y < 54 {
@@ -918,8 +922,11 @@ fn gen_plan(rng: &mut Rng) -> Plan {
                 ms_present.retain(|k| *k != key);
                 ms_present.push(key);
                 ("ctl", recon_str(&format!("ms u {} {}", key, val)))
+            } else if y < 93 && ms_present.is_empty() && rng.chance(11, 12) {
+                ms_present.push(key);
+                ("ctl", recon_str(&format!("ms u {} {}", key, val)))
             } else if y < 93 {
-                let k = if !ms_present.is_empty() && rng.chance(9, 10) { *rng.pick(&ms_present) } else { key };
+                let k = if !ms_present.is_empty() && rng.chance(11, 12) { *rng.pick(&ms_present) } else { key };
                 ms_present.retain(|q| *q != k);
                 ("ctl", recon_str(&format!("ms r {}", k)))
             } else if y < 96 {
@@ -931,11 +938,11 @@ fn gen_plan(rng: &mut Rng) -> Plan {
             script.push(format!("cmd {} {} {}", r, lane, body));
         } else if x < 82 {
             script.push("wait".into());
-        } else if x < 92 {
+        } else if x < 93 {
             let lane = *rng.pick(&lanes);
             let verb = *rng.pick(&["link", "sync", "sync", "unlink"]);
             script.push(format!("{} {} {}", verb, r, lane));
-        } else if x < 97 {
+        } else if x < 98 {
             script.push(format!("{} {}", if rng.chance(1, 2) { "stall" } else { "resume" }, r));
         } else {
             script.push(format!("drop {}", r));
